@@ -6,17 +6,16 @@ CONSTANTS
   Delta = 10
   DaySteps <- Days4
   AgeCap = 91
-  MaxRefresh = 4
+  MaxRefresh = 3
   MaxRestarts = 1
   MaxWriteFaults = 2
   MaxReadFaults = 1
-  ReadFaultKinds <- RF_corrupt
+  ReadFaultKinds <- RF_tombs
   AllowSoleRecordLoss = FALSE
   AllowIntraSetCollision = FALSE
   AllowContinueAfterVolatile = TRUE
   RelevantSignersOnly = TRUE
 SPECIFICATION Spec
 VIEW View
-INVARIANTS TypeOK TrustOnlyByRFC RevokedNeverAgain RevokedNeverAtFetch UnreadableAborts
-PROPERTIES UnauthenticatedChangesNothing RevokedOnlyRevokes FailClosed MissingKeepsTrust ReappearRestores PublishedFromState
+INVARIANTS W_NeverBootClosed
 CHECK_DEADLOCK FALSE
